@@ -303,14 +303,17 @@ def task(t):
 
 
 def run(tier, seed):
-    depth = 3 if tier == "quick" else 4
-    bound = 1 if tier == "quick" else 2
+    # quick: depth 3 with one deviation; thorough: depth 4 with one deviation AND depth 3 with two (the product depth 4 x two deviations
+    # over 21 events, 6 status wordings and 6 cut choices ran for more than an hour)
+    configs = [(3, 1)] if tier == "quick" else [(4, 1), (3, 2)]
+    depth, bound = max(c[0] for c in configs), max(c[1] for c in configs)
     tasks = []
-    for init_i in range(len(INITIAL)):
-        for version in (True, False):
-            for first in range(len(EVENTS)):
-                # (the two special-purpose stores - non-ASCII names under a debug client, empty bodies - are explored one event less deep)
-                tasks.append((init_i, version, depth if init_i < 4 else depth - 1, bound, first))
+    for cdepth, cbound in configs:
+        for init_i in range(len(INITIAL)):
+            for version in (True, False):
+                for first in range(len(EVENTS)):
+                    # (the special-purpose stores - non-ASCII names under a debug client, empty bodies, exact read size - one event less deep)
+                    tasks.append((init_i, version, cdepth if init_i < 4 else cdepth - 1, cbound, first))
     res = pool.run_tasks("checks.c15:task", tasks)
     n = sum(r["n"] for r in res)
     viols = []
